@@ -210,8 +210,8 @@ macro_rules! scenarios {
     ($G:ident, $sfx:ident) => {
         mod $sfx {
             use super::*;
-            /// k nodes, 2 symbolic update_edge between existing nodes, symbolic queries
-            pub fn edges<Ty: EdgeType, const K: usize>() {
+            /// concrete prefix: K nodes at capacity K, edges 0->1 (w 7), 1->1 (w 8), K-1->0 (w 9)
+            fn prefix<Ty: EdgeType, const K: usize>() -> ($G<Ty>, Simple) {
                 let mut g = $G::<Ty>::with_capacity(K);
                 let mut m = Simple::new(Ty::is_directed());
                 let mut i = 0;
@@ -221,23 +221,30 @@ macro_rules! scenarios {
                     m.node[i] = true;
                     i += 1;
                 }
-                let mut k = 0;
-                while k < 2 {
-                    let a: u8 = kani::any();
-                    let b: u8 = kani::any();
+                g.update_edge(mi(0), mi(1), 7);
+                m.set(0, 1, Some(7));
+                g.update_edge(mi(1), mi(1), 8);
+                m.set(1, 1, Some(8));
+                g.update_edge(mi(K as u8 - 1), mi(0), 9);
+                m.set(K - 1, 0, Some(9));
+                (g, m)
+            }
+            /// one symbolic operation between existing nodes (OP 0: update_edge, 1: try_remove_edge), symbolic queries
+            pub fn edges<Ty: EdgeType, const K: usize, const OP: usize>() {
+                let (mut g, mut m) = prefix::<Ty, K>();
+                let a: u8 = kani::any();
+                let b: u8 = kani::any();
+                kani::assume((a as usize) < K && (b as usize) < K);
+                if OP == 0 {
                     let w: u8 = kani::any();
-                    kani::assume((a as usize) < K && (b as usize) < K && w != 0);
+                    kani::assume(w != 0);
                     let old = g.update_edge(mi(a), mi(b), w);
                     assert!(old == m.set(a as usize, b as usize, Some(w)), "update_edge returns the previous weight");
-                    k += 1;
-                }
-                let rm: bool = kani::any();
-                if rm {
-                    let a: u8 = kani::any();
-                    let b: u8 = kani::any();
-                    kani::assume((a as usize) < K && (b as usize) < K);
+                    kani::cover!(old.is_some(), "overwrote an existing edge");
+                } else {
                     let got = g.try_remove_edge(mi(a), mi(b));
                     assert!(got == m.set(a as usize, b as usize, None), "try_remove_edge returns the weight / None");
+                    kani::cover!(got.is_some());
                 }
                 let q: u8 = kani::any();
                 let r: u8 = kani::any();
@@ -245,28 +252,11 @@ macro_rules! scenarios {
                 assert!(g.edge_count() == m.edge_count(), "edge_count");
                 assert!(g.has_edge(mi(q), mi(r)) == m.adj[q as usize][r as usize].is_some(), "has_edge");
                 assert!(g.get_edge_weight(mi(q), mi(r)).copied() == m.adj[q as usize][r as usize], "edge weight is the latest");
-                kani::cover!(rm && g.edge_count() == 1);
                 kani::cover!(true, "end of harness reached");
             }
-            /// K nodes at capacity K with 2 symbolic edges, then a node beyond the capacity and an edge to it: growth keeps everything
+            /// a node beyond the capacity and a symbolic edge to/from it: growth keeps everything
             pub fn growth<Ty: EdgeType, const K: usize>() {
-                let mut g = $G::<Ty>::with_capacity(K);
-                let mut m = Simple::new(Ty::is_directed());
-                let mut i = 0;
-                while i < K {
-                    g.add_node(i as u8);
-                    m.node[i] = true;
-                    i += 1;
-                }
-                let mut k = 0;
-                while k < 2 {
-                    let a: u8 = kani::any();
-                    let b: u8 = kani::any();
-                    kani::assume((a as usize) < K && (b as usize) < K);
-                    g.update_edge(mi(a), mi(b), 7 + k as u8);
-                    m.set(a as usize, b as usize, Some(7 + k as u8));
-                    k += 1;
-                }
+                let (mut g, mut m) = prefix::<Ty, K>();
                 let x = g.add_node(9);
                 assert!(x.index() == K);
                 m.node[K] = true;
@@ -293,37 +283,43 @@ macro_rules! scenarios {
 scenarios!(MG, opt);
 scenarios!(MGZ, nz);
 
-// TIER: quick BOUNDS: MatrixGraph<u8,u8,_,Directed,Option<u8>,u8>: 3 nodes, 2 symbolic update_edge + optional try_remove_edge; symbolic queries
+// TIER: thorough BOUNDS: MatrixGraph<u8,u8,_,Directed,Option<u8>,u8>: concrete 3-node prefix (3 edges), one symbolic update_edge(a,b,w); symbolic queries
 #[kani::proof]
 #[kani::unwind(12)]
-fn c04_edges_opt_di() {
-    opt::edges::<Directed, 3>()
+fn c04_update_opt_di() {
+    opt::edges::<Directed, 3, 0>()
 }
 // TIER: quick BOUNDS: same, Undirected
 #[kani::proof]
 #[kani::unwind(12)]
-fn c04_edges_opt_un() {
-    opt::edges::<Undirected, 3>()
+fn c04_update_opt_un() {
+    opt::edges::<Undirected, 3, 0>()
 }
-// TIER: quick BOUNDS: same with NotZero<u8> null representation, Directed
+// TIER: quick BOUNDS: concrete 3-node prefix, one symbolic try_remove_edge(a,b); Directed
 #[kani::proof]
 #[kani::unwind(12)]
-fn c04_edges_nz_di() {
-    nz::edges::<Directed, 3>()
+fn c04_remove_opt_di() {
+    opt::edges::<Directed, 3, 1>()
 }
-// TIER: thorough BOUNDS: same with NotZero<u8>, Undirected
+// TIER: quick BOUNDS: concrete prefix, symbolic update_edge with NotZero<u8> null representation, Directed
 #[kani::proof]
 #[kani::unwind(12)]
-fn c04_edges_nz_un() {
-    nz::edges::<Undirected, 3>()
+fn c04_update_nz_di() {
+    nz::edges::<Directed, 3, 0>()
 }
-// TIER: quick BOUNDS: with_capacity(3) + 3 nodes + 2 symbolic edges, 4th node and symbolic edge to/from it (capacity 3 -> 4, overlapping rows); Directed
+// TIER: thorough BOUNDS: concrete prefix, symbolic try_remove_edge with NotZero<u8>, Undirected
+#[kani::proof]
+#[kani::unwind(12)]
+fn c04_remove_nz_un() {
+    nz::edges::<Undirected, 3, 1>()
+}
+// TIER: thorough BOUNDS: with_capacity(3), concrete prefix, 4th node + symbolic edge to/from it (capacity 3 -> 4, overlapping rows); Directed
 #[kani::proof]
 #[kani::unwind(20)]
 fn c04_growth_3_opt_di() {
     opt::growth::<Directed, 3>()
 }
-// TIER: quick BOUNDS: with_capacity(4) + 4 nodes + 2 symbolic edges, 5th node and symbolic edge (capacity 4 -> 8); Directed
+// TIER: thorough BOUNDS: with_capacity(4), concrete prefix, 5th node + symbolic edge (capacity 4 -> 8); Directed
 #[kani::proof]
 #[kani::unwind(66)]
 fn c04_growth_4_opt_di() {
